@@ -1,7 +1,7 @@
 (** C17 — peer selection never deadlocks and never hands out a peer it should not.
     Property theorems only; each is closed by [exact] of a lemma proved elsewhere. *)
 From Coq Require Import List ZArith NArith String.
-From CN Require Import Base.Lts Base.LockOrder Gen.LockGraph_peers Peers.Locks Peers.Pool Peers.PoolProofs
+From CN Require Import Base.Lts Base.LockOrder Gen.LockGraph_peers Peers.Locks Peers.Pool Peers.PoolProofs Peers.PoolFine Peers.PoolFineProofs
   Peers.Manager Peers.ManagerProofs Peers.Fine Peers.FineProofs.
 Import ListNotations.
 Open Scope N_scope.
@@ -79,6 +79,48 @@ Theorem C17_waiters_nonvacuous :
   let s := run step (init 10) [EWTry 0; EWRead 0; EAdd [5]; ECooldown 5; EWTry 1; EWRead 1; EAdvance 10; EExpire] in
   swait s 0%nat = WHolding 0 /\ swait s 1%nat = WHolding 1 /\ (0 < pcount (spool s))%Z.
 Proof. exact waiters_nonvacuous. Qed.
+
+(** ---- the cool-down timer at LOCK GRANULARITY (Peers/PoolFine.v).  Above, one expiry ("the item leaves the queue and
+    afterCooldown makes the peer active") is one event.  In the code it is two critical sections of the timer goroutine:
+    the scan under the queue mutex ([QLock], one [QPop] per iteration) and the callback under pool.m ([QCall]); [QE e]
+    is any other pool event.  remove / tryGet / cleanup / the clock / the waiters' steps may run between any two of
+    them; add and putOnCooldown take the queue mutex first and are enabled only while the timer does not hold it.
+    [qrun true] = the code under test (releaseUnsafe calls onPop inside its loop, i.e. under the queue mutex). *)
+
+(** a peer put on cool-down is not offered again before the cool-down elapses, in every such interleaving *)
+Theorem C17_fine_cooldown_respected : forall ttl es x t,
+  let s := qrun true (qinit ttl) es in
+  snd (try_get (spool (q_sys s))) = GSome x -> In t (qcooldown_times true (qinit ttl) es x) ->
+  t + ttl <= pnow (spool (q_sys s)).
+Proof. exact fine_cooldown_respected. Qed.
+Print Assumptions C17_fine_cooldown_respected.
+
+(** ... and the pool counts its peers correctly *)
+Theorem C17_fine_pool_count_inv : forall ttl es,
+  let s := spool (q_sys (qrun true (qinit ttl) es)) in
+  pcount s = Z.of_nat (nact (pstat s) (plist s)) /\ NoDup (plist s) /\
+  (forall p, In p (plist s) <-> pstat s p <> None) /\ phas s = (0 <? pcount s)%Z.
+Proof. exact fine_pool_count_inv. Qed.
+Print Assumptions C17_fine_pool_count_inv.
+
+(** this rests on the callback running UNDER the queue mutex: when the expired ids are collected, the queue unlocked and
+    onPop called afterwards ([qrun false]), remove + add + putOnCooldown of the peer between the unlock and the callback
+    leave a fresh cool-down that the stale callback ends at once *)
+Theorem C17_cooldown_respected_callback_after_unlock_refuted : exists ttl es x t,
+  let s := qrun false (qinit ttl) es in
+  snd (try_get (spool (q_sys s))) = GSome x /\ In t (qcooldown_times false (qinit ttl) es x) /\
+  ~ (t + ttl <= pnow (spool (q_sys s))).
+Proof. exact cooldown_respected_after_unlock_refuted. Qed.
+Print Assumptions C17_cooldown_respected_callback_after_unlock_refuted.
+
+(** non-vacuity: the same calls against the code under test (remove gets through while the callback is due, add and
+    putOnCooldown wait for the scan to end; the second cool-down lasts its ttl) *)
+Theorem C17_fine_pool_nonvacuous :
+  let s := qrun true (qinit 10) window_history_locked in
+  qcooldown_times true (qinit 10) window_history_locked 0 = [0; 10] /\
+  snd (try_get (spool (q_sys s))) = GNone /\ pstat (spool (q_sys s)) 0 = Some Cooldown /\ q_tm s = TmIdle /\
+  snd (try_get (spool (q_sys (qrun true s [QE (EAdvance 10); QLock; QPop; QCall; QPop])))) = GSome 0.
+Proof. exact fine_pool_nonvacuous. Qed.
 
 (** ---- the manager (manager.go) with every call as ONE event, for every sequence [es] of manager events (shrex-sub notifications, header
     arrivals, Peer calls, request results, discovery updates, disconnects, GC rounds, clock ticks), whatever order
